@@ -57,6 +57,38 @@ fn kernel_cases(drv: &mut Drv, rep: &mut Report, rng: &mut Rng, n: usize) {
     }
 }
 
+/// the intra predictors on random workspaces (hook 5cd911b) against the model Vp8Pred.predict:
+/// every sub-block predictor at every sub-block position of the luma workspace and at random
+/// positions / strides, the 16x16 and 8x8 predictors with every availability combination
+fn predictor_cases(drv: &mut Drv, rep: &mut Report, rng: &mut Rng, n: usize) {
+    let names = ["b_dc", "tm", "b_ve", "b_he", "b_ld", "b_rd", "b_vr", "b_vl", "b_hd", "b_hu", "v", "h", "dc"];
+    for i in 0..n {
+        let kind = (i % 13) as u8;
+        // geometry: the decoder's own workspaces (luma 21 x 17, chroma 9 x 9) and random ones
+        let (size, x0, y0, stride, rows) = match kind {
+            0 | 2..=9 => {
+                if rng.chance(1, 2) { (4usize, 1 + 4 * rng.below(4) as usize, 1 + 4 * rng.below(4) as usize, 21usize, 17usize) }
+                else { let x0 = rng.range(1, 6) as usize; let y0 = rng.range(1, 5) as usize; (4, x0, y0, x0 + 8 + rng.below(5) as usize, y0 + 4 + rng.below(3) as usize) }
+            }
+            1 => match rng.below(3) { 0 => (16, 1, 1, 21, 17), 1 => (8, 1, 1, 9, 9), _ => (4, 1 + 4 * rng.below(4) as usize, 1 + 4 * rng.below(4) as usize, 21, 17) },
+            _ => if rng.chance(1, 2) { (16, 1, 1, 21, 17) } else { (8, 1, 1, 9, 9) },
+        };
+        let (above, left) = (rng.chance(1, 2), rng.chance(1, 2));
+        let style = rng.below(3);
+        let base = rng.byte();
+        let mut ws: Vec<u8> = (0..stride * rows).map(|_| match style { 0 => rng.byte(), 1 => base.wrapping_add(rng.below(9) as u8), _ => *rng.pick(&[0u8, 1, 127, 128, 254, 255]) }).collect();
+        let line = format!("vp8pred {kind} {size} {x0} {y0} {stride} {} {} {}", above as u8, left as u8, hex(&ws));
+        let r = catch(|| hk::vp8_predict(kind, &mut ws, size, x0, y0, stride, above, left));
+        let got = if r.is_ok() { hex(&ws) } else { "PANIC".into() };
+        let exp = drv.ask(&line);
+        rep.case(&line, true);
+        rep.hit(&format!("predictor_{}", names[kind as usize]));
+        if got != exp {
+            let k = got.as_bytes().iter().zip(exp.as_bytes()).position(|(a, b)| a != b).unwrap_or(0) / 2;
+            rep.disagree(Disagreement { case: line, got, expected: exp, class: "violation", obligation: format!("C02: intra predictor {} equals RFC 6386 section 12 / libwebp's predictor (model Vp8Pred.predict, theorems C02.subblock_predictors_are_reference / C02.block_predictors_are_reference)", names[kind as usize]), detail: format!("first differing workspace byte: row {} column {}", k / stride, k % stride) });
+        }
+    }
+}
 
 /// RFC 6386 section 7.3 boolean decoder, used only to read the frame header of a synthetic
 /// stream (to lay the partitions out and to label the case); independent of the crate's.
@@ -508,6 +540,7 @@ pub fn run(o: &Opts) -> Report {
     rep.rule = "(a) kernels through hooks vs the Lean model: idct4x4 / iwht4x4 on coefficient blocks of magnitudes 1..32767 (sparse, DC-only, dense), the three loop-filter kernels on 8-pixel edges (random, near-flat, step, extreme values) x hev thresholds 0..2 x interior/edge limits; (b) whole keyframes encoded by libwebp: sizes with every residue mod 16 in both dimensions incl. 1xN and Nx1, qualities 0..100, filter strength 0..100, sharpness 0..7, simple/strong filter, 1/2/4 segments, 1..8 partitions, image families (noise, gradients, flat, edges); planes compared with WebPDecodeYUV sample for sample; the repository's own lossy test images. distinct_nontrivial = distinct kernel inputs and frames".into();
     let mut rng = Rng::new(o.seed ^ 0xC02);
     kernel_cases(&mut drv, &mut rep, &mut rng, if o.thorough() { 200000 } else { 20000 });
+    predictor_cases(&mut drv, &mut rep, &mut rng, if o.thorough() { 60000 } else { 6500 });
     fparam_cases(&mut drv, &mut rep, &mut rng, if o.thorough() { 100000 } else { 6000 });
     // (b) frames
     let n = if o.thorough() { 1200 } else { 160 };
